@@ -11,19 +11,79 @@ set_option linter.unusedSimpArgs false
 namespace Rio.C10
 open Rio.Marker
 
-/-! ### Substitution: sequential longest-name-first replace = simultaneous longest-match substitution -/
+/-! ### Substitution: the one-pass `StaticOrDynamic::replace` IS the simultaneous longest-match substitution -/
 
 /-- **substitution, for every lawful longest-first order** ("longer names first, so a name never clobbers a longer
-one").  `replaceVars` is `StaticOrDynamic::replace` (sequential `str::replace("@name", value)`), `sortBy before` a
-stable sort whose comparator is a strict longest-first order (`LawfulBefore`), `subst` the one-pass simultaneous
-substitution in which every `@` followed by known names is a reference to the LONGEST one.  Hypotheses: no name and
-no value contains `@`, and `noJoin`: after the substitution no `@` (a stray one, or the head of a replaced reference
-`@n`) is followed by text that reads as a (longer) known name.  All three are needed: see the `…_fails` /
-witness theorems below. -/
+one").  `replaceVars` is `StaticOrDynamic::replace` after repair 9f65cbb (one scan of the template: at each `@` the
+first variable, in list order, whose name follows is substituted and its name skipped; substituted text is not
+scanned again), `sortBy before` a stable sort whose comparator is a strict longest-first order (`LawfulBefore`),
+`subst` the specification: every `@` followed by known names is a reference to the LONGEST one and is replaced by the
+value of the first entry of that name; everything else is copied.  NO hypothesis on names, values or template:
+names containing `@`, the empty name, repeated names, values containing `@other`, stray `@`s are all covered. -/
 theorem substitution_lawful (before : Str → Str → Bool) (hb : LawfulBefore before)
-    (vs : List (Str × Str)) (t : Str)
-    (hnames : namesNoAt vs = true) (hvals : valuesNoAt vs = true) (hjoin : noJoin vs t = true) :
+    (vs : List (Str × Str)) (t : Str) :
     replaceVars t (sortBy before vs) = subst vs t := by
+  unfold replaceVars subst parse
+  exact scanAux_eq before hb vs 0 t
+
+/-- The comparator of `Rule::variables` (`key_b.len().cmp(&key_a.len()).then_with(|| key_a.cmp(key_b))`, repair
+96f3afa) is a lawful longest-first order; so is the one of `MarkerString::new` (length only). -/
+theorem code_orders_lawful : LawfulBefore varBefore ∧ LawfulBefore lenBefore :=
+  ⟨lawful_varBefore, lawful_lenBefore⟩
+
+/-- **substitution** for the code's order: `sortVars` = the final sort of `Rule::variables`. -/
+theorem substitution (vs : List (Str × Str)) (t : Str) : replaceVars t (sortVars vs) = subst vs t :=
+  substitution_lawful varBefore lawful_varBefore vs t
+
+/-- The sort is what the function relies on ("Variables must be sorted by name length, longest first"): on an
+unsorted list the shorter name wins (`@id2` with `id` first gives `72`). -/
+theorem substitution_fails_without_sort :
+    let vs : List (Str × Str) := [(['i','d'], ['7']), (['i','d','2'], ['9'])]
+    replaceVars ['@','i','d','2'] vs = ['7','2'] ∧
+    replaceVars ['@','i','d','2'] (sortVars vs) = ['9'] ∧ subst vs ['@','i','d','2'] = ['9'] := by
+  decide
+
+/-- The inputs of the three repaired findings now give the specified result: `join` (`@id@year`, id=7, id2=9,
+year=2024: `72024`, was `9024`), `value-contains-at` (`/@ab` with ab=`@c`, c=`z`: `/@c`, was `/z`), a stray `@` in front
+of an empty value (`@@abcd`, ab=``, cd=`x`: `@cd`, was `x`). -/
+theorem repaired_findings_witnesses :
+    replaceVars ['@','i','d','@','y','e','a','r']
+      (sortVars [(['i','d'], ['7']), (['i','d','2'], ['9']), (['y','e','a','r'], ['2','0','2','4'])]) = ['7','2','0','2','4'] ∧
+    replaceVars ['/','@','a','b'] (sortVars [(['a','b'], ['@','c']), (['c'], ['z'])]) = ['/','@','c'] ∧
+    replaceVars ['@','@','a','b','c','d'] (sortVars [(['a','b'], []), (['c','d'], ['x'])]) = ['@','c','d'] := by
+  decide
+
+/-- Corner cases the specification fixes (and the code follows): of two entries of one name the first counts; the
+empty name matches every `@` that starts no longer name; a name containing `@` is an ordinary name. -/
+theorem substitution_corner_cases :
+    replaceVars ['@','a','-','@','b'] (sortVars [(['a'], ['1']), (['a'], ['2']), ([], ['e'])]) = ['1','-','e','b'] ∧
+    replaceVars ['@','a','@','b','@','a'] (sortVars [(['a','@','b'], ['x']), (['a'], ['y'])]) = ['x','y'] := by
+  decide
+
+/-- The result depends neither on the order (or on repetitions after the first entry of a name) of the variable
+list — e.g. the iteration order of the HashMap of captured markers — nor on WHICH lawful longest-first order the
+sort uses. -/
+theorem substitution_order_irrelevant (before before' : Str → Str → Bool)
+    (hb : LawfulBefore before) (hb' : LawfulBefore before') (vs vs' : List (Str × Str)) (t : Str)
+    (hn : ∀ m, m ∈ names vs ↔ m ∈ names vs') (hl : ∀ n, vs.lookup n = vs'.lookup n) :
+    replaceVars t (sortBy before vs) = replaceVars t (sortBy before' vs') := by
+  rw [substitution_lawful before hb vs t, substitution_lawful before' hb' vs' t, subst_congr hn hl]
+
+/-- The code's order is total on names: with distinct names the sorted variable list itself does not depend on
+the iteration order of the map of captured markers (repair 96f3afa). -/
+theorem variables_order_deterministic (vs vs' : List (Str × Str)) (hperm : vs.Perm vs')
+    (hnd : (names vs).Nodup) : sortVars vs = sortVars vs' :=
+  sortVars_perm vs vs' hperm hnd
+
+/-! #### For the record: the sequential code before repair 9f65cbb -/
+
+/-- What `replaceSeq` (one textual `str::replace` per variable over the previous result) computed: the
+specification only when no name and no value contains `@` and no substituted text joins an `@` into a longer name
+(`noJoin`). -/
+theorem sequential_replace_substitution (vs : List (Str × Str)) (t : Str)
+    (hnames : namesNoAt vs = true) (hvals : valuesNoAt vs = true) (hjoin : noJoin vs t = true) :
+    replaceSeq t (sortVars vs) = subst vs t := by
+  have hb := lawful_varBefore
   have hn : ∀ p ∈ vs, '@' ∉ p.1 := by
     intro p hp
     simp only [namesNoAt, List.all_eq_true] at hnames
@@ -44,112 +104,21 @@ theorem substitution_lawful (before : Str → Str → Bool) (hb : LawfulBefore b
       simp only [names, List.mem_map] at this
       obtain ⟨p, hp, rfl⟩ := this
       exact hn p hp
-  have h := foldl_replace_render idEsc (sortBy before vs) (parse (names vs) t) (sorted_sortBy hb vs)
+  have h := foldl_replace_render idEsc (sortVars vs) (parse (names vs) t) (sorted_sortBy hb vs)
     (fun p hp => hn p ((mem_sortBy p vs).mp hp)) (fun p hp => hv p ((mem_sortBy p vs).mp hp))
     hclean (fun n hn' => (mem_names_sortBy vs n).mpr (parse_refs _ _ n hn'))
     (noJoinP_sortBy hb idEsc vs _ ((noJoinItems_iff idEsc vs _).mp hjoin))
+  unfold sortVars at h ⊢
   rw [render_parse, fill_sortBy hb] at h
   exact h
 
-/-- The comparator of `Rule::variables` (after repair 96f3afa: `key_b.len().cmp(&key_a.len()).then_with(||
-key_a.cmp(key_b))`) is a lawful longest-first order; so is the one of `MarkerString::new` (length only). -/
-theorem code_orders_lawful : LawfulBefore varBefore ∧ LawfulBefore lenBefore :=
-  ⟨lawful_varBefore, lawful_lenBefore⟩
-
-/-- **substitution** for the code's order: `sortVars` = the final sort of `Rule::variables`. -/
-theorem substitution (vs : List (Str × Str)) (t : Str)
-    (hnames : namesNoAt vs = true) (hvals : valuesNoAt vs = true) (hjoin : noJoin vs t = true) :
-    replaceVars t (sortVars vs) = subst vs t :=
-  substitution_lawful varBefore lawful_varBefore vs t hnames hvals hjoin
-
-/-- The statement of DESIGN §5-C10 (hypotheses NoAtInValues and NoStrayAt only). -/
-def SubstitutionDesignStatement : Prop :=
-  ∀ (vs : List (Str × Str)) (t : Str), namesNoAt vs = true → valuesNoAt vs = true → noStrayAt vs t = true →
-    replaceVars t (sortVars vs) = subst vs t
-
-/-- It is false: target `@id@year` with `id = 7`, `id2 = 9`, `year = 2024` gives `9024` instead of `72024` — the
-value of `@year` joins the text `@id` into `@id2`, and `@id2` is replaced before `@id` (finding `join`; the same
-input is a pinned replay against the real code). -/
-theorem substitution_design_statement_fails : ¬ SubstitutionDesignStatement := by
-  intro h
-  have := h [(['i','d'], ['7']), (['i','d','2'], ['9']), (['y','e','a','r'], ['2','0','2','4'])]
-    ['@','i','d','@','y','e','a','r'] (by decide) (by decide) (by decide)
-  revert this
+/-- … and what it got wrong (the findings `join`, `value-contains-at`, stray `@`, all repaired by the one-pass scan). -/
+theorem sequential_replace_findings :
+    replaceSeq ['@','i','d','@','y','e','a','r']
+      (sortVars [(['i','d'], ['7']), (['i','d','2'], ['9']), (['y','e','a','r'], ['2','0','2','4'])]) = ['9','0','2','4'] ∧
+    replaceSeq ['/','@','a','b'] (sortVars [(['a','b'], ['@','c']), (['c'], ['z'])]) = ['/','z'] ∧
+    replaceSeq ['@','@','a','b','c','d'] (sortVars [(['a','b'], []), (['c','d'], ['x'])]) = ['x'] := by
   decide
-
-/-- What the code computes on that input, and what the simultaneous substitution gives. -/
-theorem join_witness :
-    let vs : List (Str × Str) := [(['i','d'], ['7']), (['i','d','2'], ['9']), (['y','e','a','r'], ['2','0','2','4'])]
-    replaceVars ['@','i','d','@','y','e','a','r'] (sortVars vs) = ['9','0','2','4'] ∧
-    subst vs ['@','i','d','@','y','e','a','r'] = ['7','2','0','2','4'] ∧ noJoin vs ['@','i','d','@','y','e','a','r'] = false := by
-  decide
-
-/-- The sort matters: without it the shorter name clobbers the longer one (`@id2` with `id` first gives `72`). -/
-theorem substitution_fails_without_sort :
-    let vs : List (Str × Str) := [(['i','d'], ['7']), (['i','d','2'], ['9'])]
-    namesNoAt vs = true ∧ valuesNoAt vs = true ∧ noJoin vs ['@','i','d','2'] = true ∧
-    replaceVars ['@','i','d','2'] vs = ['7','2'] ∧
-    replaceVars ['@','i','d','2'] (sortVars vs) = ['9'] ∧ subst vs ['@','i','d','2'] = ['9'] := by
-  decide
-
-/-- Excluded point 1: a value containing `@shorter` is substituted again (`valuesNoAt` is needed). -/
-theorem value_with_at_is_resubstituted :
-    let vs : List (Str × Str) := [(['a','b'], ['@','c']), (['c'], ['z'])]
-    namesNoAt vs = true ∧ valuesNoAt vs = false ∧
-    replaceVars ['/','@','a','b'] (sortVars vs) = ['/','z'] ∧ subst vs ['/','@','a','b'] = ['/','@','c'] := by
-  decide
-
-/-- Excluded point 2: a stray `@` in front of a reference whose value is empty reads as a new reference
-(`noJoin` covers stray `@`s). -/
-theorem stray_at_joins :
-    let vs : List (Str × Str) := [(['a','b'], []), (['c','d'], ['x'])]
-    namesNoAt vs = true ∧ valuesNoAt vs = true ∧ noJoin vs ['@','@','a','b','c','d'] = false ∧
-    replaceVars ['@','@','a','b','c','d'] (sortVars vs) = ['x'] ∧ subst vs ['@','@','a','b','c','d'] = ['@','c','d'] := by
-  decide
-
-/-- Under the hypotheses of `substitution` the result depends neither on the order (or on repetitions after the
-first entry of a name) of the variable list — e.g. the iteration order of the HashMap of captured markers — nor
-on WHICH lawful longest-first order the sort uses (how equal-length names are arranged). -/
-theorem substitution_order_irrelevant (before before' : Str → Str → Bool)
-    (hb : LawfulBefore before) (hb' : LawfulBefore before') (vs vs' : List (Str × Str)) (t : Str)
-    (hn : ∀ m, m ∈ names vs ↔ m ∈ names vs') (hl : ∀ n, vs.lookup n = vs'.lookup n)
-    (hnames : namesNoAt vs = true) (hvals : valuesNoAt vs = true) (hjoin : noJoin vs t = true)
-    (hnames' : namesNoAt vs' = true) (hvals' : valuesNoAt vs' = true) :
-    replaceVars t (sortBy before vs) = replaceVars t (sortBy before' vs') := by
-  have hjoin' : noJoin vs' t = true := by
-    rw [noJoin, noJoinItems_iff] at hjoin ⊢
-    rw [← parse_congr hn t]
-    exact noJoinP_congr idEsc hn hl _ hjoin
-  rw [substitution_lawful before hb vs t hnames hvals hjoin,
-    substitution_lawful before' hb' vs' t hnames' hvals' hjoin', subst_congr hn hl]
-
-/-- The code's order is total on names: with distinct names (captured markers come out of a map) the variable
-list handed to `StaticOrDynamic::replace` — hence every substituted value, with or without the hypotheses of
-`substitution` — does not depend on the iteration order of that map.  (Repair 96f3afa of finding `hashmap-order`.) -/
-theorem variables_order_deterministic (vs vs' : List (Str × Str)) (t : Str) (hperm : vs.Perm vs')
-    (hnd : (names vs).Nodup) : replaceVars t (sortVars vs) = replaceVars t (sortVars vs') := by
-  rw [sortVars_perm vs vs' hperm hnd]
-
-/-- The other tie-break for equal-length names (descending names): also a lawful longest-first order. -/
-def varBeforeDesc (a b : Str) : Bool := decide (blen b < blen a) || (decide (blen a = blen b) && strLt b a)
-
-/-- Outside the hypotheses the arrangement of equal-length names matters: names `a`, `b`, the value of `a`
-containing `@b`.  Before repair 96f3afa the arrangement was the iteration order of a HashMap (the fixed finding
-`hashmap-order`: two calls could disagree); the code's order now always gives the first result — which is still
-not the simultaneous substitution `@b` (known finding `value-contains-at`). -/
-theorem tie_break_matters_outside_hypotheses :
-    let vs : List (Str × Str) := [(['b'], ['z']), (['a'], ['@','b'])]
-    LawfulBefore varBeforeDesc ∧
-    replaceVars ['@','a'] (sortVars vs) = ['z'] ∧ replaceVars ['@','a'] (sortBy varBeforeDesc vs) = ['@','b'] ∧
-    subst vs ['@','a'] = ['@','b'] := by
-  refine ⟨⟨?_, ?_, ?_⟩, by decide, by decide, by decide⟩
-  · intro a b h
-    simp only [varBeforeDesc, Bool.or_eq_true, Bool.and_eq_true, decide_eq_true_eq] at h
-    rcases h with h | h <;> omega
-  · intro a b h
-    simp only [varBeforeDesc, Bool.or_eq_false_iff, Bool.and_eq_false_iff, decide_eq_false_iff_not] at h
-    omega
-  · intro a; simp [varBeforeDesc, strLt_irrefl]
 
 /-! ### The regex of a template is its token view -/
 
@@ -454,44 +423,13 @@ example :
 def templates (r : Rule) : List Str :=
   r.target.toList ++ r.headerFilters ++ r.bodyFilters ++ r.htmlFilters.flatMap fun f => [f.1, f.2.getD f.1]
 
-/-- **outcome_eq_spec.**  Location, `get_target`, custom header-filter values and body-filter contents are the
-simultaneous substitution of the rule's variable list (markers through their transformers, or the explicit
-variables) into the respective template, under the hypotheses of `substitution` for that list. -/
-theorem outcome_eq_spec (cf : CaseFns) (r : Rule) (probe : Str) (captured : List (Str × Str)) (q : Request)
-    (hn : namesNoAt (r.variablesUnsorted cf captured q) = true)
-    (hv : valuesNoAt (r.variablesUnsorted cf captured q) = true)
-    (hj : ∀ t ∈ templates r, noJoin (r.variablesUnsorted cf captured q) t = true) :
+/-- **outcome_eq_spec.**  Location, `get_target`, custom header-filter values, text body-filter contents and html
+body-filter value / inner_value are the simultaneous substitution of the rule's variable list (markers through their
+transformers, or the explicit variables) into the respective template. -/
+theorem outcome_eq_spec (cf : CaseFns) (r : Rule) (probe : Str) (captured : List (Str × Str)) (q : Request) :
     r.outcome cf probe captured q = r.outcomeSpec cf probe captured q := by
-  have key : ∀ t ∈ templates r, replaceVars t (r.vars cf captured q) = subst (r.variablesUnsorted cf captured q) t :=
-    fun t ht => substitution _ t hn hv (hj t ht)
-  unfold Rule.outcome Rule.outcomeSpec Rule.outcomeWith
-  have h1 : r.headerFilters.map (fun t => replaceVars t (r.vars cf captured q)) =
-      r.headerFilters.map (fun t => subst (r.variablesUnsorted cf captured q) t) :=
-    List.map_congr_left fun t ht => key t (by simp [templates, ht])
-  have h2 : r.bodyFilters.flatMap (fun t => replaceVars t (r.vars cf captured q)) =
-      r.bodyFilters.flatMap (fun t => subst (r.variablesUnsorted cf captured q) t) := by
-    have : r.bodyFilters.map (fun t => replaceVars t (r.vars cf captured q)) =
-        r.bodyFilters.map (fun t => subst (r.variablesUnsorted cf captured q) t) :=
-      List.map_congr_left fun t ht => key t (by simp [templates, ht])
-    simp only [List.flatMap_def, this]
-  have h3 : r.htmlFilters.map (fun f => (replaceVars f.1 (r.vars cf captured q), replaceVars (f.2.getD f.1) (r.vars cf captured q))) =
-      r.htmlFilters.map (fun f => (subst (r.variablesUnsorted cf captured q) f.1,
-        subst (r.variablesUnsorted cf captured q) (f.2.getD f.1))) := by
-    apply List.map_congr_left
-    intro f hf
-    have hm1 : f.1 ∈ templates r := by
-      simp only [templates, List.mem_append, List.mem_flatMap]
-      right; exact ⟨f, hf, by simp⟩
-    have hm2 : f.2.getD f.1 ∈ templates r := by
-      simp only [templates, List.mem_append, List.mem_flatMap]
-      right; exact ⟨f, hf, by simp⟩
-    rw [key _ hm1, key _ hm2]
-  rw [h1, h2, h3]
-  cases ht : r.target with
-  | none => rfl
-  | some t =>
-    have := key t (by simp [templates, ht])
-    simp only [Option.map_some, this]
+  unfold Rule.outcome Rule.outcomeSpec Rule.outcomeWith Rule.vars
+  simp only [substitution]
 
 /-- **End to end: `Location = target[@mᵢ := Tᵢ(vᵢ)]`.**  A rule without explicit variables whose captured markers
 are the instantiation `v` of the token list `ts` (that is what `captures_are_instantiation` provides from the
@@ -499,13 +437,10 @@ capture law) redirects to the simultaneous substitution of `(mᵢ, Tᵢ (v mᵢ)
 theorem location_is_target_with_transformed_values (cf : CaseFns) (r : Rule) (probe : Str) (q : Request)
     (ts : List Tok) (v : Str → Str) (captured : List (Str × Str)) (t : Str)
     (hbc : r.variables = []) (ht : r.target = some t) (hne : t ≠ [])
-    (hcap : ∀ n, captured.lookup n = (groupValues ts v).lookup n)
-    (hn : namesNoAt (r.variablesUnsorted cf captured q) = true)
-    (hv : valuesNoAt (r.variablesUnsorted cf captured q) = true)
-    (hj : ∀ t ∈ templates r, noJoin (r.variablesUnsorted cf captured q) t = true) :
+    (hcap : ∀ n, captured.lookup n = (groupValues ts v).lookup n) :
     (r.outcome cf probe captured q).location =
       [subst ((groupNames ts).map fun n => (n, markerValue cf r n (v n))) t] := by
-  rw [outcome_eq_spec cf r probe captured q hn hv hj]
+  rw [outcome_eq_spec cf r probe captured q]
   have hlook : ∀ n, (r.variablesUnsorted cf captured q).lookup n =
       ((groupNames ts).map fun n => (n, markerValue cf r n (v n))).lookup n := by
     intro n
@@ -536,8 +471,8 @@ def pathTokens (r : Rule) : List Tok :=
 with markers in its path only and no explicit variables; a request whose normalised path is the instantiation `v`
 of the path tokens (and whose matching path — the lower-cased one under `ignore_path_and_query_case` — is an
 instantiation `v'` with accepted values).  Then the rule matches, and its Location is the target with every
-`@m` replaced by the transformed instantiated value — under the engine laws for this one pattern, the
-delimiter condition, and the hypotheses of `substitution` for the variable list. -/
+`@m` replaced by the transformed instantiated value — under the engine laws for this one pattern and the
+delimiter condition. -/
 theorem rule_end_to_end (E : Engine) (cf : CaseFns) (cfg : Config) (r : Rule) (q : Request) (probe : Str)
     (L : Str → Str → Prop) (ceq : Char → Char → Bool) (hrefl : ∀ c, ceq c c = true)
     (hhost : r.host = none) (hhdr : r.headers = []) (hbc : r.variables = [])
@@ -550,10 +485,7 @@ theorem rule_end_to_end (E : Engine) (cf : CaseFns) (cfg : Config) (r : Rule) (q
     (hpath : q.path = instOf (pathTokens r) v)
     (hdelim : Delimited L ceq v (pathTokens r))
     (hacc : ∀ n re, Tok.grp n re ∈ pathTokens r → L re (v n))
-    (t : Str) (ht : r.target = some t) (hne : t ≠ [])
-    (hn : namesNoAt (r.variablesUnsorted cf (r.capture E cf cfg q) q) = true)
-    (hv : valuesNoAt (r.variablesUnsorted cf (r.capture E cf cfg q) q) = true)
-    (hj : ∀ t ∈ templates r, noJoin (r.variablesUnsorted cf (r.capture E cf cfg q) q) t = true) :
+    (t : Str) (ht : r.target = some t) (hne : t ≠ []) :
     r.matches E cf cfg q = true ∧
     (r.outcome cf probe (r.capture E cf cfg q) q).location =
       [subst ((groupNames (pathTokens r)).map fun n => (n, markerValue cf r n (v n))) t] := by
@@ -592,16 +524,15 @@ theorem rule_end_to_end (E : Engine) (cf : CaseFns) (cfg : Config) (r : Rule) (q
       have hcap : ∀ n, (r.capture E cf cfg q).lookup n = (groupValues (pathTokens r) v).lookup n := by
         intro n
         rw [hcapEq, lookup_extendMap_nil m (laws.caps_nodup _ m hc), hlk n]
-      exact location_is_target_with_transformed_values cf r probe q (pathTokens r) v _ t hbc ht hne hcap hn hv hj
+      exact location_is_target_with_transformed_values cf r probe q (pathTokens r) v _ t hbc ht hne hcap
 
 /-! ### Non-vacuity -/
 
 /-- `substitution` on names that are prefixes of one another, a reference followed by name-extending text, an
-unknown reference and a trailing `@`: hypotheses hold, and the value is what one expects. -/
+unknown reference and a trailing `@`. -/
 example :
     let vs : List (Str × Str) := [(['a'], ['1']), (['a','b'], ['x','y']), (['a','b','c'], ['f','o','o'])]
     let t : Str := ['/','@','a','b','c','-','@','a','b','-','@','a','-','@','a','b','c','d','-','@','a','b','x','-','@','q','@']
-    namesNoAt vs = true ∧ valuesNoAt vs = true ∧ noJoin vs t = true ∧
     replaceVars t (sortVars vs) = ['/','f','o','o','-','x','y','-','1','-','f','o','o','d','-','x','y','x','-','@','q','@'] := by
   decide
 
